@@ -126,7 +126,6 @@ func (t *Tr) call(_ interface{}, c *ssa.CallCommon, instr ssa.Instruction) {
 		key = "dynamic call " + c.Value.Name() + " : " + shortKey(c.Value.Type().String())
 	}
 	t.vc.Unmod[key]++
-	t.copyIn(args)
 	t.havocAll(t.cur, false)
 	if res != nil {
 		t.havocVal(res)
@@ -252,7 +251,12 @@ func (t *Tr) applyContract(ct *Contract, key string, args []ssa.Value, res ssa.V
 			// e.g. concrete value passed where the spec declares an interface
 			ty = a.Type()
 		}
-		env.vars[pn[i]] = Val{T: v, Ty: ty}
+		pv := Val{T: v, Ty: ty}
+		if ad, ok := t.addrs[a]; ok && (ad.Kind == aField || ad.Kind == aElem) {
+			// interior pointer: `*p` in the callee's contract denotes the caller's location itself
+			pv.Ptr = ad
+		}
+		env.vars[pn[i]] = pv
 	}
 	// closure call: the callee's free variables denote the captured cells' current contents
 	if c != nil {
@@ -285,7 +289,6 @@ func (t *Tr) applyContract(ct *Contract, key string, args []ssa.Value, res ssa.V
 	if t.preOnly {
 		return
 	}
-	cells := t.copyIn(args)
 	// re-evaluate pointer args: env terms are values, unaffected
 	old := t.cur.clone()
 	t.applyModifies(ct, env, key)
@@ -350,7 +353,9 @@ func (t *Tr) applyContract(ct *Contract, key string, args []ssa.Value, res ssa.V
 		}
 		t.assumeCl(s, false)
 	}
-	t.copyOut(args, cells)
+	if c != nil && c.IsInvoke() && len(args) > 0 {
+		t.dispatchFacts(c, args, rts, old)
+	}
 	// function-valued arguments must satisfy the abstract contract the callee expects
 	for pname, an := range ct.Satisfies {
 		for i, n := range pn {
@@ -388,7 +393,7 @@ func (t *Tr) applyAssigns(ac AssignClause, env *Env, key string) {
 	}
 	hn, hs := elemHeapName(sl.Elem()), t.elemHeapSort(sl.Elem())
 	h := t.heapGet(t.cur, hn, hs)
-	start := t.define("astart", SInt_, fmt.Sprintf("(+ (s-off %s) %s)", d.T.S, lo.T.S))
+	start := linNorm(fmt.Sprintf("(+ (s-off %s) %s)", d.T.S, lo.T.S))
 	cnt := t.define("acnt", SInt_, foldArith("-", hi.T.S, lo.T.S))
 	row := t.rangeUpdate(fmt.Sprintf("(select %s (s-base %s))", h, d.T.S), start, cnt, sl.Elem(), func(i string) string {
 		ne := env.with(ac.Var, Val{T: Term{fmt.Sprintf("(- %s (s-off %s))", i, d.T.S), SInt_}, Ty: tInt})
@@ -400,6 +405,58 @@ func (t *Tr) applyAssigns(ac AssignClause, env *Env, key string) {
 		return v.T.S
 	})
 	t.heapSet(t.cur, hn, hs, fmt.Sprintf("(store %s (s-base %s) %s)", h, d.T.S, row))
+}
+
+// dispatchFacts: at an interface method call, for every first-party
+// implementation under contract that is effect-free (pure), its postconditions
+// hold when the receiver has that dynamic type. (Each implementation is
+// verified against its own contract.)
+func (t *Tr) dispatchFacts(c *ssa.CallCommon, args []ssa.Value, rts []Term, old *State) {
+	recv := t.val(c.Value)
+	mname := c.Method.Name()
+	for _, ct := range t.w.CS.All {
+		if ct.Trusted || !ct.Pure || len(ct.Requires) > 1 {
+			continue
+		}
+		for _, n := range ct.Names {
+			fn := t.w.FuncKeys[n]
+			if fn == nil || fn.Signature.Recv() == nil || fn.Name() != mname {
+				continue
+			}
+			rt := fn.Signature.Recv().Type()
+			if !types.Implements(rt, c.Value.Type().Underlying().(*types.Interface)) {
+				continue
+			}
+			if t.vc.sortOf(rt) != SInt_ {
+				continue // only pointer receivers (payload = the pointer)
+			}
+			env := &Env{t: t, vars: map[string]Val{}, cur: t.cur, old: old, pkg: ct.Pkg}
+			if len(fn.Params) == 0 {
+				continue
+			}
+			env.vars[fn.Params[0].Name()] = Val{T: Term{fmt.Sprintf("(i-val %s)", recv.S), SInt_}, Ty: rt}
+			for i, p := range fn.Params[1:] {
+				if i+1 < len(args) {
+					env.vars[p.Name()] = Val{T: t.val(args[i+1]), Ty: p.Type()}
+				}
+			}
+			for i, ns := range resultAliases(fn.Signature) {
+				if i < len(rts) {
+					for _, nm := range ns {
+						env.vars[nm] = Val{T: rts[i], Ty: fn.Signature.Results().At(i).Type()}
+					}
+				}
+			}
+			guard := fmt.Sprintf("(= (i-tag %s) %s)", recv.S, t.vc.tagOf(rt))
+			for _, en := range ct.Ensures {
+				s, err := env.evalClause(en.E)
+				if err != nil {
+					continue
+				}
+				t.assumeCl(Cl{fmt.Sprintf("(=> %s %s)", guard, s.Q), fmt.Sprintf("(=> %s %s)", guard, s.U)}, false)
+			}
+		}
+	}
 }
 
 func closureFn(v ssa.Value) *ssa.Function {
@@ -438,6 +495,12 @@ func (t *Tr) applyModifies(ct *Contract, env *Env, key string) {
 		}
 		if m.File == "assigns" {
 			continue // written by the assigns clause once the results are known
+		}
+		if names, ok := t.wholeHeapItem(m, ct.Pkg); ok {
+			for _, n := range names {
+				t.heapHavoc(t.cur, n)
+			}
+			continue
 		}
 		t.havocLocation(m, env, key)
 	}
@@ -532,6 +595,10 @@ func (t *Tr) havocLocation(m Clause, env *Env, key string) {
 		if err != nil {
 			efail("%s:%d: modifies of %s: %v", m.File, m.Line, key, err)
 		}
+		if p.Ptr != nil {
+			t.havocAddr(p.Ptr)
+			return
+		}
 		pt, ok := p.Ty.Underlying().(*types.Pointer)
 		if !ok {
 			efail("%s:%d: modifies %s: not a pointer", m.File, m.Line, m.Src)
@@ -540,6 +607,58 @@ func (t *Tr) havocLocation(m Clause, env *Env, key string) {
 	default:
 		efail("%s:%d: unsupported modifies target %q", m.File, m.Line, m.Src)
 	}
+}
+
+// wholeHeapItem expands pkg(name) / elems(T) to the matching known heaps.
+func (t *Tr) wholeHeapItem(m Clause, pkg string) ([]string, bool) {
+	var out []string
+	switch {
+	case strings.HasPrefix(m.Src, "pkg("):
+		name := strings.TrimSuffix(strings.TrimPrefix(m.Src, "pkg("), ")")
+		for n := range t.vc.heapSort {
+			if heapOfPkg(n, name) {
+				out = append(out, n)
+			}
+		}
+	case strings.HasPrefix(m.Src, "cells("):
+		ts, err := parseTypeString(strings.TrimSuffix(strings.TrimPrefix(m.Src, "cells("), ")"))
+		if err != nil {
+			efail("%s:%d: %v", m.File, m.Line, err)
+		}
+		ty, err := t.w.resolveType(ts, pkg)
+		if err != nil {
+			efail("%s:%d: %v", m.File, m.Line, err)
+		}
+		hn := cellHeapName(ty)
+		t.heapGet(t.cur, hn, Sort("(Array Int "+string(t.vc.sortOf(ty))+")"))
+		out = append(out, hn)
+	case strings.HasPrefix(m.Src, "elems("):
+		ts, err := parseTypeString(strings.TrimSuffix(strings.TrimPrefix(m.Src, "elems("), ")"))
+		if err != nil {
+			efail("%s:%d: %v", m.File, m.Line, err)
+		}
+		ty, err := t.w.resolveType(ts, pkg)
+		if err != nil {
+			efail("%s:%d: %v", m.File, m.Line, err)
+		}
+		hn := elemHeapName(ty)
+		t.heapGet(t.cur, hn, t.elemHeapSort(ty))
+		out = append(out, hn)
+	default:
+		return nil, false
+	}
+	sortStrings(out)
+	return out, true
+}
+
+// heapOfPkg: does the heap hold values of a type declared in package name?
+func heapOfPkg(heap, name string) bool {
+	for _, pre := range []string{"F_", "E_", "C_", "B_", "F_P", "E_P", "C_P", "B_P", "E_LR", "C_LR", "E_LRP", "C_LRP"} {
+		if strings.HasPrefix(heap, pre+name+"_") {
+			return true
+		}
+	}
+	return false
 }
 
 // typeField recognises `T.f` (T a struct type name in scope).
@@ -622,6 +741,20 @@ func (t *Tr) callMods(c *ssa.CallCommon, set map[string]bool) (bool, bool) {
 		}
 		return true, true
 	}
+	// interior pointers passed as arguments: `*p` clauses write the caller's field/element heap
+	var args []ssa.Value
+	if c.IsInvoke() {
+		args = append(args, c.Value)
+	}
+	args = append(args, c.Args...)
+	pn, _, _, _ := t.contractParams(ct, c, len(args))
+	t.ptrArgs = map[string]ssa.Value{}
+	for i, a := range args {
+		if i < len(pn) {
+			t.ptrArgs[pn[i]] = a
+		}
+	}
+	defer func() { t.ptrArgs = nil }()
 	return t.contractMods(ct, set)
 }
 
@@ -653,6 +786,15 @@ func (t *Tr) contractMods(ct *Contract, set map[string]bool) (bool, bool) {
 
 // modsOfClause over-approximates the heaps named by a modifies clause.
 func (t *Tr) modsOfClause(ct *Contract, m Clause, set map[string]bool) {
+	if names, ok := t.wholeHeapItem(m, ct.Pkg); ok {
+		for _, n := range names {
+			set[n] = true
+		}
+		if strings.HasPrefix(m.Src, "pkg(") {
+			set["~pkg:"+strings.TrimSuffix(strings.TrimPrefix(m.Src, "pkg("), ")")] = true
+		}
+		return
+	}
 	root := m.E
 	if c, ok := root.(*SCall); ok {
 		if id, ok := c.Fun.(*SIdent); ok {
@@ -706,6 +848,15 @@ func (t *Tr) modsOfClause(ct *Contract, m Clause, set map[string]bool) {
 			}
 		}
 	case *SDeref:
+		if id, ok := x.X.(*SIdent); ok && t.ptrArgs != nil {
+			if a, ok := t.ptrArgs[id.Name]; ok {
+				switch a.(type) {
+				case *ssa.FieldAddr, *ssa.IndexAddr:
+					t.modsOfPtr(a, set)
+					return
+				}
+			}
+		}
 		if pt, ok := ty.Underlying().(*types.Pointer); ok {
 			t.modsOfType(pt.Elem(), set)
 			return
@@ -780,26 +931,33 @@ func (t *Tr) clauseRootType(ct *Contract, m Clause) types.Type {
 	return typeOf(operand)
 }
 
-// frameAtReturn checks the function's own modifies clause: every heap not
-// named is unchanged on objects that existed at entry.
-func (t *Tr) frameAtReturn() {
+// frameAllowed computes the heaps the function's own modifies clause covers;
+// ok=false when there is no frame to check (default `*`, trusted, lemma).
+func (t *Tr) frameAllowed() (map[string]bool, bool) {
 	ct := t.c
 	if ct == nil || ct.Trusted || ct.Lemma {
-		return
+		return nil, false
 	}
 	if !ct.HasMod && !ct.Pure {
-		return // default frame is `*`: nothing to check
+		return nil, false // default frame is `*`: nothing to check
 	}
 	allowed := map[string]bool{}
 	for _, m := range ct.Modifies {
 		if m.Src == "*" || m.Src == "**" {
-			return
+			return nil, false
 		}
 		t.modsOfClause(ct, m, allowed)
 	}
 	if allowed["*unknown*"] {
-		return
+		return nil, false
 	}
+	return allowed, true
+}
+
+// frameFormula: every heap in names (nil = all known) that the modifies clause
+// does not cover is unchanged, between st and the entry state, on objects
+// that existed at entry.
+func (t *Tr) frameFormula(st *State, allowed map[string]bool, only map[string]bool) string {
 	next0 := t.next(t.entry)
 	var names []string
 	for n := range t.vc.heapSort {
@@ -811,12 +969,15 @@ func (t *Tr) frameAtReturn() {
 		if n == "NEXT" || strings.HasPrefix(n, "RV_") || strings.HasPrefix(n, "RI_") {
 			continue
 		}
+		if only != nil && !only[n] {
+			continue
+		}
 		s := t.vc.heapSort[n]
-		a, b := t.heapGet(t.cur, n, s), t.heapGet(t.entry, n, s)
+		a, b := t.heapGet(st, n, s), t.heapGet(t.entry, n, s)
 		if a == b {
 			continue
 		}
-		if allowed[n] {
+		if allowed[n] || allowedByPattern(allowed, n) {
 			// location-precise part is carried by explicit ensures; the heap as a whole may change
 			continue
 		}
@@ -828,15 +989,34 @@ func (t *Tr) frameAtReturn() {
 		q := fmt.Sprintf("qf_%d", t.n)
 		// aroot: the allocation an (interior) address belongs to
 		t.vc.declFun("aroot", "(define-fun adec ((p Int)) Int (let ((e (div (- (- p) 1) 4096))) (ite (= (mod e 2) 0) (div e 2) (- (div e 2)))))\n(define-fun aroot ((p Int)) Int (ite (> p 0) p (let ((q (adec p))) (ite (> q 0) q (let ((q2 (adec q))) (ite (> q2 0) q2 (adec q2)))))))")
-		parts = append(parts, fmt.Sprintf("(forall ((%s Int)) (=> (< (aroot %s) %s) (= (select %s %s) (select %s %s))))", q, q, next0, a, q, b, q))
+		parts = append(parts, fmt.Sprintf("(forall ((%s Int)) (! (=> (< (aroot %s) %s) (= (select %s %s) (select %s %s))) :pattern ((select %s %s))))", q, q, next0, a, q, b, q, a, q))
 	}
-	f := mkAnd(parts...)
+	return mkAnd(parts...)
+}
+
+// frameAtReturn checks the function's own modifies clause: every heap not
+// named is unchanged on objects that existed at entry.
+func (t *Tr) frameAtReturn() {
+	allowed, ok := t.frameAllowed()
+	if !ok {
+		return
+	}
+	f := t.frameFormula(t.cur, allowed, nil)
 	if t.curReach != "true" {
 		f = fmt.Sprintf("(=> %s %s)", t.curReach, f)
 	}
 	if f != "true" {
 		t.frameOb = append(t.frameOb, f)
 	}
+}
+
+func allowedByPattern(allowed map[string]bool, heap string) bool {
+	for k := range allowed {
+		if strings.HasPrefix(k, "~pkg:") && heapOfPkg(heap, strings.TrimPrefix(k, "~pkg:")) {
+			return true
+		}
+	}
+	return false
 }
 
 func sortStrings(s []string) {
@@ -927,7 +1107,7 @@ func (t *Tr) appendBuiltin(c *ssa.CallCommon, res ssa.Value, pos token.Pos) {
 		y := t.val(c.Args[1])
 		addLen = fmt.Sprintf("(s-len %s)", y.S)
 		elemAt = func(i string) string {
-			return fmt.Sprintf("(select (select %s (s-base %s)) (+ (s-off %s) %s))", h, y.S, y.S, i)
+			return fmt.Sprintf("(select (select %s (s-base %s)) %s)", h, y.S, linNorm(fmt.Sprintf("(+ (s-off %s) %s)", y.S, i)))
 		}
 	}
 	newLen := t.define("alen", SInt_, fmt.Sprintf("(+ (s-len %s) %s)", s.S, addLen))
@@ -973,13 +1153,13 @@ func (t *Tr) copyBuiltin(c *ssa.CallCommon, res ssa.Value) {
 		y := t.val(c.Args[1])
 		srcLen = fmt.Sprintf("(s-len %s)", y.S)
 		srcAt = func(i string) string {
-			return fmt.Sprintf("(select (select %s (s-base %s)) (+ (s-off %s) %s))", h, y.S, y.S, i)
+			return fmt.Sprintf("(select (select %s (s-base %s)) %s)", h, y.S, linNorm(fmt.Sprintf("(+ (s-off %s) %s)", y.S, i)))
 		}
 	}
 	n := t.define("ncopy", SInt_, fmt.Sprintf("(ite (<= (s-len %s) %s) (s-len %s) %s)", d.S, srcLen, d.S, srcLen))
 	oldRow := fmt.Sprintf("(select %s (s-base %s))", h, d.S)
 	doff := fmt.Sprintf("(s-off %s)", d.S)
-	row := t.rangeUpdate(oldRow, doff, n, et, func(i string) string { return srcAt(fmt.Sprintf("(- %s %s)", i, doff)) })
+	row := t.rangeUpdate(oldRow, doff, n, et, func(i string) string { return srcAt(linNorm(fmt.Sprintf("(- %s %s)", i, doff))) })
 	t.heapSet(t.cur, hn, hs, fmt.Sprintf("(store %s (s-base %s) %s)", h, d.S, row))
 	_ = es
 	if res != nil {
